@@ -14,6 +14,8 @@ from .report import AnalysisError, VERIF
 
 CLANG = "clang-14"
 DROP_CASTS = ("LValueToRValue", "NoOp", "ArrayToPointerDecay", "FunctionToPointerDecay")
+NORMALISE_DECL_INIT = True
+NORMALISE_COMPOUND = True
 
 
 # --------------------------------------------------------------------------------------------------
@@ -467,7 +469,13 @@ class _Conv(object):
                 self.func.locals[v["id"]] = var
                 init = [c for c in v.get("inner", []) if c and c.get("kind")]
                 ie = self.expr(init[0]) if init else None
-                out.append(S("decl", var=var, init=ie, line=line))
+                if ie is not None and ie.k != "init" and var.scope == "local" and NORMALISE_DECL_INIT:
+                    # normal form:  T x = e;  is  T x; x = e;   so that every analysis sees one kind of assignment
+                    ref = E("var", name=var.name, decl=var.decl, ty=var.ty, scope="local", line=line)
+                    out.append(S("decl", var=var, init=None, line=line))
+                    out.append(S("expr", e=E("asg", op="=", a=[ref, ie], ty=var.ty, line=line), line=line))
+                else:
+                    out.append(S("decl", var=var, init=ie, line=line))
             if len(out) == 1:
                 return out[0]
             return S("multi", body=out, line=line)
@@ -593,7 +601,16 @@ class _Conv(object):
             l, r = n["inner"]
             op = n["opcode"]
             if op == "=":
-                return E("asg", op="=", a=[self.expr(l), self.expr(r)], ty=_qt(n), line=line, off=off)
+                le, re_ = self.expr(l), self.expr(r)
+                if NORMALISE_COMPOUND:
+                    # normal form:  a = a + b  is  a += b   (same for - * /; the target must be free of side effects)
+                    core = re_
+                    while core is not None and core.k == "cast" and core.op in ("IntegralCast", "FloatingCast", "IntegralToFloating", "FloatingToIntegral") and False:
+                        core = core.a[0]
+                    if core is not None and core.k == "bin" and core.op in ("+", "-", "*", "/") and estr(core.a[0]) == estr(le) \
+                            and not any(x.k in ("asg", "incdec", "call") for x in ewalk(le)) and (core.ty or "") == (le.ty or core.ty or ""):
+                        return E("asg", op=core.op + "=", a=[le, core.a[1]], ty=_qt(n), line=line, off=off)
+                return E("asg", op="=", a=[le, re_], ty=_qt(n), line=line, off=off)
             if op == ",":
                 return E("bin", op=",", a=[self.expr(l), self.expr(r)], ty=_qt(n), line=line, off=off)
             return E("bin", op=op, a=[self.expr(l), self.expr(r)], ty=_qt(n), line=line, off=off)
@@ -863,8 +880,10 @@ def _written_names(s, skip_inc_of=None):
     return assigned, stored
 
 
-def scalar_defs(func, constants_only=False):
-    """(constants_only: only the names defined outside every loop - they hold one value for the whole call.)
+def scalar_defs(func, constants_only=False, within=None):
+    """(constants_only: only the names defined outside every loop - they hold one value for the whole call.
+    within: a statement of func - only the assignments inside it count, for reading expressions of that statement: a local that
+    several disjoint loops each set for themselves has one definition in each of them.)
     name -> defining expression for local scalars that are written at exactly one site (declaration initialiser or a plain
     '=' statement), whose right side has no side effects and reads nothing that the innermost loop around the definition (or the
     whole function when there is none) writes - apart from that loop's own counter.  Substituting such a name by its definition
@@ -897,7 +916,7 @@ def scalar_defs(func, constants_only=False):
                 visit(c, inner)
         elif isinstance(s.body, S):
             visit(s.body, inner)
-    visit(func.body, [])
+    visit(within if within is not None else func.body, [within] if (within is not None and within.k in ("for", "while", "do")) else [])
     groups = []
     for st in swalk(func.body):
         pairs = []
@@ -930,7 +949,7 @@ def scalar_defs(func, constants_only=False):
             continue
         if any(x.k in ("asg", "incdec", "call") for x in ewalk(rhs)):
             continue
-        scope = loop if loop is not None else func.body
+        scope = loop if loop is not None else (within if within is not None else func.body)
         assigned, stored = _written_names(scope, skip_inc_of=loop)
         for grp in groups:  # a store through a local pointer is a store to what it may point into
             if grp & stored:
@@ -941,9 +960,14 @@ def scalar_defs(func, constants_only=False):
             if v in assigned and len(vs) == 1 and vs[0][2] in ("decl", "asg") and vs[0][0] is not None and (vs[0][1] is None or vs[0][1] is loop) and v not in params:
                 assigned = assigned - {v}
         reads = {x.name for x in ewalk(rhs) if x.k == "var" and x.scope not in ("func", "enum")}
+        rhs_core = rhs
+        while rhs_core.k == "cast":
+            rhs_core = rhs_core.a[0]
         w_, r_ = [], []
         writes_reads(rhs, w_, r_)
-        content = {base_var(x).name for x in r_ if x.k != "var" and base_var(x) is not None}
+        # a partial subscript ( g = gv[k] with gv[][3] ) yields the address of a row, it reads no element
+        content = {base_var(x).name for x in r_ if x.k != "var" and base_var(x) is not None
+                   and not (x.k == "idx" and x.ty and ("[" in x.ty or "*" in x.ty) and x is rhs_core)}
         if name in reads or reads & assigned or content & stored:
             continue
         out[name] = rhs
@@ -966,14 +990,19 @@ def esubst(e, defs, depth=3):
 
 
 def _simplify_idx(n):
-    """in place: (&A[e])[x] and (A + e)[x] are A[e + x]; *(&A[e]) handled by the callers that need it"""
-    b = n.a[0]
-    while b.k == "cast" and b.ty and "*" in b.ty and b.a[0].ty == b.ty:
-        b = b.a[0]
-    if b.k == "un" and b.op == "&" and b.a[0].k == "idx":
-        n.a = [b.a[0].a[0], _plus(b.a[0].a[1], n.a[1])]
-    elif b.k == "bin" and b.op == "+" and b.a[0].ty and ("*" in b.a[0].ty or "[" in b.a[0].ty):
-        n.a = [b.a[0], _plus(b.a[1], n.a[1])]
+    """in place: (&A[e])[x], (A + e)[x] and (A - e)[x] are A[e + x] / A[x - e], repeatedly; *(&A[e]) handled by the callers that need it"""
+    for _ in range(6):
+        b = n.a[0]
+        while b.k == "cast" and b.ty and "*" in b.ty and b.a[0].ty == b.ty:
+            b = b.a[0]
+        if b.k == "un" and b.op == "&" and b.a[0].k == "idx":
+            n.a = [b.a[0].a[0], _plus(b.a[0].a[1], n.a[1])]
+        elif b.k == "bin" and b.op == "+" and b.a[0].ty and ("*" in b.a[0].ty or "[" in b.a[0].ty):
+            n.a = [b.a[0], _plus(b.a[1], n.a[1])]
+        elif b.k == "bin" and b.op == "-" and b.a[0].ty and ("*" in b.a[0].ty or "[" in b.a[0].ty) and not (b.a[1].ty and "*" in b.a[1].ty):
+            n.a = [b.a[0], E("bin", op="-", a=[n.a[1], b.a[1]], ty=n.a[1].ty, line=n.a[1].line)]
+        else:
+            break
 
 
 def _plus(x, y):
@@ -1055,13 +1084,16 @@ def _always_returns(stmts):
     return False
 
 
-def tailify(stmts):
-    """statement list of a function body with the returned values dropped and every return removed:  if (c) { A; return x; } B;
-    becomes  if (c) { A; } else { B; }.  None when a return sits inside a loop (no structured equivalent without goto)."""
+def tailify(stmts, mk=None):
+    """statement list of a function body with every return removed:  if (c) { A; return x; } B;  becomes  if (c) { A; } else { B; }.
+    The returned value is handed to mk(expr, line) -> statements (default: dropped, kept as a statement only when it has side
+    effects).  None when a return sits inside a loop (no structured equivalent without goto)."""
     out = []
     for k, st in enumerate(stmts):
         if st.k == "return":
-            if st.e is not None and any(x.k in ("asg", "incdec", "call") for x in ewalk(st.e)):
+            if mk is not None:
+                out += mk(st.e, st.line)
+            elif st.e is not None and any(x.k in ("asg", "incdec", "call") for x in ewalk(st.e)):
                 out.append(S("expr", e=st.e, line=st.line))
             return out
         if not _has_return(st):
@@ -1069,7 +1101,7 @@ def tailify(stmts):
             continue
         rest = stmts[k + 1:]
         if st.k == "block":
-            inner = tailify(list(st.body) + rest)
+            inner = tailify(list(st.body) + rest, mk)
             if inner is None:
                 return None
             return out + inner
@@ -1077,11 +1109,11 @@ def tailify(stmts):
             tl, el = _stmts_of(st.then), _stmts_of(st.els)
             t_ret, e_ret = _always_returns(tl), _always_returns(el)
             if t_ret and e_ret:
-                T, E_ = tailify(tl), tailify(el)
+                T, E_ = tailify(tl, mk), tailify(el, mk)
             elif t_ret and not _has_return(el):
-                T, E_ = tailify(tl), tailify(el + rest)
+                T, E_ = tailify(tl, mk), tailify(el + rest, mk)
             elif e_ret and not _has_return(tl):
-                T, E_ = tailify(tl + rest), tailify(el)
+                T, E_ = tailify(tl + rest, mk), tailify(el, mk)
             else:
                 return None
             if T is None or E_ is None:
@@ -1133,7 +1165,7 @@ def inline_calls(func, byname, which=None, depth=2):
     def side_effect_free_plain(a):
         return not any(x.k in ("asg", "incdec", "call", "idx", "member") or (x.k == "un" and x.op == "*") for x in ewalk(a))
 
-    def expand(call, line, d):
+    def expand(call, line, d, mk=None):
         g = byname.get(call.name)
         if g is None or g is func or (which is not None and g.name not in which) or inlinable(g) is not None or len(call.a) != len(g.params) or d <= 0:
             if g is not None and g is not func:
@@ -1165,7 +1197,7 @@ def inline_calls(func, byname, which=None, depth=2):
             v = E("var", name="%s__%s" % (lv.name, tag), decl="inl:%s:%s" % (tag, lv.name), ty=lv.ty, scope="local", line=lv.line)
             new_locals[v.decl] = v
             vmap[did] = v
-        body = tailify([_clone_s(st, vmap) for st in g.body.body])
+        body = tailify([_clone_s(st, vmap) for st in g.body.body], mk)
         blk = S("block", body=pre + body, line=line, end_line=line)
         done.add(g.name)
         return rewrite(blk, d - 1)
@@ -1180,6 +1212,34 @@ def inline_calls(func, byname, which=None, depth=2):
             r = expand(ce, s.line, d)
             if r is not None:
                 return r
+            return s
+        # x = g(...);  x op= g(...);   ->   g's body with every 'return e' turned into 'x = e' / 'x op= e'
+        if ce is not None and ce.k == "asg" and not any(x.k in ("asg", "incdec", "call") for x in ewalk(ce.a[0])):
+            rc = ce.a[1]
+            while rc.k == "cast":
+                rc = rc.a[0]
+            gfn = byname.get(rc.name) if rc.k == "call" else None
+            if gfn is not None and gfn is not func and (gfn.rettype or "").strip() != "void":
+                casts = []
+                x_ = ce.a[1]
+                while x_.k == "cast":
+                    casts.append(x_)
+                    x_ = x_.a[0]
+
+                def mk(e, ln, ce=ce, casts=casts):
+                    if e is None:
+                        return []
+                    val = e
+                    for c_ in reversed(casts):
+                        w = E("cast")
+                        for slot in E.__slots__:
+                            setattr(w, slot, getattr(c_, slot))
+                        w.a = [val]
+                        val = w
+                    return [S("expr", e=E("asg", op=ce.op, a=[_clone_e(ce.a[0], {}), val], ty=ce.ty, line=ln), line=ln)]
+                r = expand(rc, s.line, d, mk)
+                if r is not None:
+                    return r
             return s
         for attr in ("then", "els"):
             c = getattr(s, attr)
@@ -1199,3 +1259,23 @@ def inline_calls(func, byname, which=None, depth=2):
     nf.locals.update(new_locals)
     nf.inlined_from = sorted(done)
     return nf, done, kept - done if False else kept
+
+
+_INLINED_CACHE = {}
+
+
+def inlined_func(tus, name, file=None, keep=()):
+    """find_func(...) with the statement-level calls of other functions of the sources replaced by their bodies (helpers named in
+    keep stay calls).  Rules written against one function body read through an 'extract helper' refactoring with it."""
+    f = find_func(tus, name, file)
+    key = (id(tus), f.file, name, tuple(sorted(keep)))
+    if key not in _INLINED_CACHE:
+        byname = {g.name: g for g in all_funcs(tus)}
+        which = set(byname) - set(keep) - {name}
+        called = set(x.name for st, x in all_exprs(f.body) if x.k == "call")
+        if called & which:
+            nf, _d, _k = inline_calls(f, byname, which=which, depth=3)
+        else:
+            nf = f
+        _INLINED_CACHE[key] = nf
+    return _INLINED_CACHE[key]
